@@ -14,58 +14,98 @@ Open Scope Z_scope.
 Definition vx := LVar "x".
 Definition vy := LVar "y".
 
-(* core.int_clamp applied to a variable (cache_when_complex does not introduce a `with`) *)
-Definition m_clamp_var (k : Z) (signed : bool) (v : string) : lir :=
-  LSeq (LAssert (if signed
-                 then L2 OEq (LVar v) (L2 OSignextend (LInt (k - 1)) (LVar v))
-                 else L1 OIszero (L2 OShr (LInt (8 * k)) (LVar v))))
-       (LVar v).
-(* core.int_clamp applied to a complex expression *)
-Definition m_int_clamp (k : Z) (signed : bool) (arg : lir) : lir :=
-  LWith "val" arg (m_clamp_var k signed "val").
+(* Operands are arbitrary non-complex IR terms [ea], [eb] (an IR variable or an integer literal).
+   IRnode.cache_when_complex(name) wraps its node in (with name node body) unless the *optimised* node is not
+   "complex", in which case the (unoptimised) node is inlined at every use.  Whether that happens depends on
+   vyper/ir/optimizer.py, so every cache point takes a flag [inl]; the theorems hold for both values and the
+   tie accepts any combination of flags. *)
+Definition m_cache (inl : bool) (n : string) (e : lir) (body : lir -> lir) : lir :=
+  if inl then body e else LWith n e (body (LVar n)).
 
-Definition m_safe_addsub (o : op2) (T : nty) : lir :=
+Definition is_lit (t : lir) : option Z := match t with LInt v => Some v | _ => None end.
+
+(* core.int_clamp body on a non-complex / cached term *)
+Definition m_clamp_of (k : Z) (signed : bool) (er : lir) : lir :=
+  LSeq (LAssert (if signed
+                 then L2 OEq er (L2 OSignextend (LInt (k - 1)) er)
+                 else L1 OIszero (L2 OShr (LInt (8 * k)) er)))
+       er.
+Definition m_clamp_var (k : Z) (signed : bool) (v : string) : lir := m_clamp_of k signed (LVar v).
+Definition m_int_clamp (k : Z) (signed : bool) (arg : lir) (inl : bool) : lir :=
+  m_cache inl "val" arg (m_clamp_of k signed).
+
+Definition m_safe_addsub (o : op2) (T : nty) (ea eb : lir) (inl : bool) : lir :=
   let k := nbytes T in
-  if k <? 32 then m_int_clamp k (nsigned T) (L2 o vx vy)
+  if k <? 32 then m_int_clamp k (nsigned T) (L2 o ea eb) inl
   else
-    let ans := LVar "ans" in
-    let ok := if nsigned T
-              then L2 OEq (L2 OSlt vy (LInt 0)) (L2 (match o with OAdd => OSlt | _ => OSgt end) ans vx)
-              else L2 (match o with OAdd => OGe | _ => OLe end) ans vx in
-    LWith "ans" (L2 o vx vy) (LSeq (LAssert ok) ans).
+    m_cache inl "ans" (L2 o ea eb) (fun ans =>
+      let ok := if nsigned T
+                then L2 OEq (L2 OSlt eb (LInt 0)) (L2 (match o with OAdd => OSlt | _ => OSgt end) ans ea)
+                else L2 (match o with OAdd => OGe | _ => OLe end) ans ea in
+      LSeq (LAssert ok) ans).
 Definition m_safe_add := m_safe_addsub OAdd.
 Definition m_safe_sub := m_safe_addsub OSub.
 
 Definition m_DIV (T : nty) : op2 := if nsigned T then OSdiv else ODiv.
 Definition m_min256 : lir := L2 OShl (LInt 255) (LInt 1).
 
-Definition m_safe_mul (T : nty) : lir :=
+(* safe_mul after the literal swap: ea is the (non-literal) first factor *)
+Definition m_mul_ok (T : nty) (ea eb ans : lir) : lir :=
   let k := nbytes T in
-  let ans := LVar "ans" in
-  let ok0 := if 16 <? k then L2 OOr (L2 OEq (L2 (m_DIV T) ans vy) vx) (L1 OIszero vy) else LInt 1 in
-  let ok := if nsigned T && (k =? 32)
-            then L2 OAnd ok0 (L2 OOr (L2 ONe vx m_min256) (L2 ONe (L1 ONot vy) (LInt 0)))
-            else ok0 in
-  let res := if ndec T
-             then (if k <? 32 then m_int_clamp k (nsigned T) (L2 (m_DIV T) ans (LInt DIVISOR))
-                   else L2 (m_DIV T) ans (LInt DIVISOR))
-             else (if k <? 32 then m_clamp_var k (nsigned T) "ans" else ans) in
-  LWith "ans" (L2 OMul vx vy) (LSeq (LAssert ok) res).
-
-Definition m_nonzero_y : lir := LSeq (LAssert (L2 OGt vy (LInt 0))) vy.
-
-Definition m_safe_div (T : nty) : lir :=
+  let ok0 := if 16 <? k then L2 OOr (L2 OEq (L2 (m_DIV T) ans eb) ea) (L1 OIszero eb) else LInt 1 in
+  let check_x := L2 ONe ea m_min256 in
+  let check_y := L2 ONe (L1 ONot eb) (LInt 0) in
+  if nsigned T && (k =? 32)
+  then match is_lit ea, is_lit eb with
+       | None, None => L2 OAnd ok0 (L2 OOr check_x check_y)
+       | Some v, _ => if v =? - 2 ^ 255 then L2 OAnd ok0 check_y
+                      else match is_lit eb with
+                           | Some u => if u =? -1 then L2 OAnd ok0 check_x else ok0
+                           | None => ok0 end
+       | None, Some u => if u =? -1 then L2 OAnd ok0 check_x else ok0
+       end
+  else ok0.
+Definition m_mul_res (T : nty) (ans : lir) (i2 : bool) : lir :=
   let k := nbytes T in
-  let res := LVar "res" in
-  let x' := if ndec T then L2 OMul vx (LInt DIVISOR) else vx in
-  let ok := if nsigned T && (k =? 32)
-            then L2 OOr (L2 ONe vy (L1 ONot (LInt 0))) (L2 ONe vx m_min256)
-            else LInt 1 in
-  let res' := if (nsigned T || ndec T) && (k <? 32) then m_clamp_var k (nsigned T) "res" else res in
-  LWith "res" (L2 (m_DIV T) x' m_nonzero_y) (LSeq (LAssert ok) res').
+  if ndec T
+  then (if k <? 32 then m_int_clamp k (nsigned T) (L2 (m_DIV T) ans (LInt DIVISOR)) i2
+        else L2 (m_DIV T) ans (LInt DIVISOR))
+  else (if k <? 32 then m_clamp_of k (nsigned T) ans else ans).
+Definition m_mul_core (T : nty) (ea eb : lir) (i1 i2 : bool) : lir :=
+  m_cache i1 "ans" (L2 OMul ea eb) (fun ans => LSeq (LAssert (m_mul_ok T ea eb ans)) (m_mul_res T ans i2)).
+Definition m_safe_mul (T : nty) (ea eb : lir) (i1 i2 : bool) : lir :=
+  match is_lit ea with Some _ => m_mul_core T eb ea i1 i2 | None => m_mul_core T ea eb i1 i2 end.
 
-Definition m_safe_mod (T : nty) : lir :=
-  L2 (if nsigned T then OSmod else OMod) vx m_nonzero_y.
+Definition m_nonzero (eb : lir) : lir := LSeq (LAssert (L2 OGt eb (LInt 0))) eb.
+
+Definition m_div_ok (T : nty) (ea eb : lir) : lir :=
+  let nx := L2 ONe ea m_min256 in
+  let ny := L2 ONe eb (L1 ONot (LInt 0)) in
+  if nsigned T && (nbytes T =? 32)
+  then match is_lit ea, is_lit eb with
+       | None, None => L2 OOr ny nx
+       | Some v, _ => if v =? - 2 ^ 255 then ny
+                      else match is_lit eb with
+                           | Some u => if u =? -1 then nx else LInt 1
+                           | None => LInt 1 end
+       | None, Some u => if u =? -1 then nx else LInt 1
+       end
+  else LInt 1.
+Definition m_div_skip (T : nty) (ea eb : lir) : bool :=
+  match is_lit ea with Some v => negb (v =? ty_lo T) | None => false end
+  || match is_lit eb with Some u => negb (u =? -1) | None => false end.
+Definition m_div_res (T : nty) (ea eb res : lir) : lir :=
+  let k := nbytes T in
+  if ndec T then (if k <? 32 then m_clamp_of k (nsigned T) res else res)
+  else if nsigned T && (k <? 32) && negb (m_div_skip T ea eb) then m_clamp_of k (nsigned T) res
+  else res.
+Definition m_safe_div (T : nty) (ea eb : lir) (i1 : bool) : lir :=
+  let x' := if ndec T then L2 OMul ea (LInt DIVISOR) else ea in
+  m_cache i1 "res" (L2 (m_DIV T) x' (m_nonzero eb))
+          (fun res => LSeq (LAssert (m_div_ok T ea eb)) (m_div_res T ea eb res)).
+
+Definition m_safe_mod (T : nty) (ea eb : lir) : lir :=
+  L2 (if nsigned T then OSmod else OMod) ea (m_nonzero eb).
 
 (* expr.py parse_UnaryOp, USub: (sub 0 (clamp sgt x MIN)) *)
 Definition m_usub (T : nty) : lir :=
